@@ -223,4 +223,769 @@ theorem processOper_refused (hn : (x.conn c).nick = some nick)
       simp [hm, hpw]
 end oper
 
+/-! ## 2. user MODE never grants operator flags -/
+section umode
+variable (cfg : Cfg) (cn : Conn) (nick : Str)
+
+theorem umodeChar_other (a : UModeAcc) (ch : Char) (h : ch ∉ ['+','-','i','r','w','o','O']) :
+    umodeChar cfg cn nick a ch = a := by
+  simp only [List.mem_cons, List.not_mem_nil, or_false, not_or] at h
+  unfold umodeChar
+  simp only
+  obtain ⟨h1,h2,h3,h4,h5,h6,h7⟩ := h
+  rw [if_neg h1, if_neg h2, if_neg h3, if_neg h4, if_neg h5, if_neg h6, if_neg h7]
+
+/-- case split over the seven letters `umodeChar` knows -/
+theorem umodeChar_ind (P : Char → UModeAcc → Prop) (a : UModeAcc)
+    (h : ∀ ch ∈ ['+','-','i','r','w','o','O'], P ch (umodeChar cfg cn nick a ch))
+    (h0 : ∀ ch, P ch a) (ch : Char) : P ch (umodeChar cfg cn nick a ch) := by
+  by_cases hm : ch ∈ ['+','-','i','r','w','o','O']
+  · exact h ch hm
+  · rw [umodeChar_other cfg cn nick a ch hm]; exact h0 ch
+
+theorem umodeChar_oper (a : UModeAcc) (ch : Char)
+    (h : (umodeChar cfg cn nick a ch).modes.oper = true) : a.modes.oper = true := by
+  revert h
+  refine umodeChar_ind cfg cn nick (fun _ a' => a'.modes.oper = true → a.modes.oper = true) a ?_ (fun _ => id) ch
+  intro ch hm
+  simp only [List.mem_cons, List.not_mem_nil, or_false] at hm
+  rcases hm with rfl | rfl | rfl | rfl | rfl | rfl | rfl <;>
+    (unfold umodeChar; simp only [Char.reduceEq, ↓reduceIte]; repeat' split) <;> simp_all
+
+theorem umodeChar_localOper (a : UModeAcc) (ch : Char) :
+    (umodeChar cfg cn nick a ch).modes.localOper = a.modes.localOper := by
+  refine umodeChar_ind cfg cn nick (fun _ a' => a'.modes.localOper = a.modes.localOper) a ?_ (fun _ => rfl) ch
+  intro ch hm
+  simp only [List.mem_cons, List.not_mem_nil, or_false] at hm
+  rcases hm with rfl | rfl | rfl | rfl | rfl | rfl | rfl <;>
+    (unfold umodeChar; simp only [Char.reduceEq, ↓reduceIte]; repeat' split) <;> rfl
+
+/-- `umodeChar` touches, of the world, only `wallops` and the two counters (and the panic flag) -/
+theorem umodeChar_frame (a : UModeAcc) (ch : Char) :
+    (umodeChar cfg cn nick a ch).x.w.users = a.x.w.users ∧
+    (umodeChar cfg cn nick a ch).x.w.channels = a.x.w.channels ∧
+    (umodeChar cfg cn nick a ch).x.w.conns = a.x.w.conns ∧
+    (umodeChar cfg cn nick a ch).x.w.srvQuit = a.x.w.srvQuit ∧
+    (umodeChar cfg cn nick a ch).x.queued = a.x.queued := by
+  refine umodeChar_ind cfg cn nick (fun _ a' => a'.x.w.users = a.x.w.users ∧
+    a'.x.w.channels = a.x.w.channels ∧ a'.x.w.conns = a.x.w.conns ∧
+    a'.x.w.srvQuit = a.x.w.srvQuit ∧ a'.x.queued = a.x.queued) a ?_
+    (fun _ => ⟨rfl, rfl, rfl, rfl, rfl⟩) ch
+  intro ch hm
+  simp only [List.mem_cons, List.not_mem_nil, or_false] at hm
+  rcases hm with rfl | rfl | rfl | rfl | rfl | rfl | rfl <;>
+    (unfold umodeChar; simp only [Char.reduceEq, ↓reduceIte]; repeat' split) <;>
+    (refine ⟨?_, ?_, ?_, ?_, ?_⟩ <;> first | rfl | (simp only [Ctx.modifyW_w]; done) | (simp only [Ctx.modifyW_w]; split <;> rfl))
+end umode
+
+section umodeFold
+variable (cfg : Cfg) (cn : Conn) (nick : Str)
+
+/-- what one step of the user-MODE loop may do to the accumulator -/
+structure UStep (a a' : UModeAcc) : Prop where
+  oper : a'.modes.oper = true → a.modes.oper = true
+  localOper : a'.modes.localOper = a.modes.localOper
+  users : a'.x.w.users = a.x.w.users
+  channels : a'.x.w.channels = a.x.w.channels
+  conns : a'.x.w.conns = a.x.w.conns
+  srvQuit : a'.x.w.srvQuit = a.x.w.srvQuit
+  queued : a'.x.queued = a.x.queued
+
+theorem UStep.refl (a : UModeAcc) : UStep a a := ⟨id, rfl, rfl, rfl, rfl, rfl, rfl⟩
+
+theorem UStep.trans {a b c : UModeAcc} (h1 : UStep a b) (h2 : UStep b c) : UStep a c :=
+  ⟨fun h => h1.oper (h2.oper h), h2.localOper.trans h1.localOper, h2.users.trans h1.users,
+   h2.channels.trans h1.channels, h2.conns.trans h1.conns, h2.srvQuit.trans h1.srvQuit,
+   h2.queued.trans h1.queued⟩
+
+theorem UStep.ofChar (a : UModeAcc) (ch : Char) : UStep a (umodeChar cfg cn nick a ch) := by
+  obtain ⟨h1, h2, h3, h4, h5⟩ := umodeChar_frame cfg cn nick a ch
+  exact ⟨umodeChar_oper cfg cn nick a ch, umodeChar_localOper cfg cn nick a ch, h1, h2, h3, h4, h5⟩
+
+theorem UStep.foldChars (s : Str) (a : UModeAcc) : UStep a (s.foldl (Irc.umodeChar cfg cn nick) a) := by
+  induction s generalizing a with
+  | nil => exact UStep.refl a
+  | cons ch s ih => exact (UStep.ofChar cfg cn nick a ch).trans (ih _)
+
+theorem UStep.foldGroups (gs : List (Str × List Str)) (a : UModeAcc) :
+    UStep a (gs.foldl (fun a g => g.1.foldl (Irc.umodeChar cfg cn nick) { a with modeSet := false }) a) := by
+  induction gs generalizing a with
+  | nil => exact UStep.refl a
+  | cons g gs ih =>
+    refine UStep.trans ?_ (ih _)
+    have h0 : UStep a { a with modeSet := false } := ⟨id, rfl, rfl, rfl, rfl, rfl, rfl⟩
+    exact h0.trans (UStep.foldChars cfg cn nick g.1 _)
+
+end umodeFold
+
+/-- The effect of MODE on a user, on the world: the target's `modes` are replaced by some `m`
+    whose operator flags are not above the old ones; nothing else in `users`, no channel,
+    no connection, no queue is touched. -/
+theorem processModeUser_effect (cfg : Cfg) (c : Nat) (target : Str) (modes : List (Str × List Str))
+    (x : Ctx) :
+    ∃ m : UserModes,
+      (∀ u, Map.lookup target x.w.users = some u →
+        (m.oper = true → u.modes.oper = true) ∧ m.localOper = u.modes.localOper) ∧
+      (processModeUser cfg c target modes x).w.users =
+        Map.modify target (fun u => { u with modes := m }) x.w.users ∧
+      (processModeUser cfg c target modes x).w.channels = x.w.channels ∧
+      (processModeUser cfg c target modes x).w.conns = x.w.conns ∧
+      (processModeUser cfg c target modes x).w.srvQuit = x.w.srvQuit ∧
+      (processModeUser cfg c target modes x).queued = x.queued := by
+  unfold processModeUser
+  cases hu : Map.lookup target x.w.users with
+  | none =>
+    refine ⟨{}, by simp, ?_, rfl, rfl, rfl, rfl⟩
+    simp only [Ctx.panic_w, World.panic_users]
+    exact (Map.modify_eq_self _ _ _ (by simp [hu])).symm
+  | some user =>
+    simp only
+    by_cases he : modes.isEmpty = true
+    · simp only [he, ↓reduceIte]
+      refine ⟨user.modes, ?_, ?_, rfl, rfl, rfl, rfl⟩
+      · intro u h; cases h; exact ⟨id, rfl⟩
+      · simp only [Ctx.reply_w]
+        exact (Map.modify_eq_self _ _ _ (by intro v hv; rw [hu] at hv; cases hv; rfl)).symm
+    · simp only [he, Bool.false_eq_true, ↓reduceIte]
+      have st := UStep.foldGroups cfg (x.conn c) target modes { x := x, modes := user.modes }
+      generalize (List.foldl (fun a g => List.foldl (umodeChar cfg (x.conn c) target)
+        { a with modeSet := false } g.1) ({ x := x, modes := user.modes } : UModeAcc) modes) = A at st
+      refine ⟨A.modes, ?_, ?_, ?_, ?_, ?_, ?_⟩
+      · intro u h; cases h; exact ⟨st.oper, st.localOper⟩
+      · split <;> simp [st.users]
+      · split <;> simp [st.channels]
+      · split <;> simp [st.conns]
+      · split <;> simp [st.srvQuit]
+      · split <;> simp [st.queued]
+
+/-- `+o` / `+O` asked by a user who lacks that flag: one 481 line, nothing else. -/
+theorem processModeUser_plus_refused (cfg : Cfg) (c : Nat) (target : Str) (args : List Str) (x : Ctx)
+    (u : User) (hu : Map.lookup target x.w.users = some u) :
+    (u.modes.oper = false →
+      processModeUser cfg c target [(['+', 'o'], args)] x =
+        x.reply cfg (ErrNoPrivileges481 (x.conn c).clientName)) ∧
+    (u.modes.localOper = false →
+      processModeUser cfg c target [(['+', 'O'], args)] x =
+        x.reply cfg (ErrNoPrivileges481 (x.conn c).clientName)) := by
+  have hm : Map.modify target (fun v => { v with modes := u.modes }) x.w.users = x.w.users :=
+    Map.modify_eq_self _ _ _ (by intro v hv; rw [hu] at hv; cases hv; rfl)
+  constructor
+  · intro h
+    simp [processModeUser, hu, umodeChar, h, Ctx.modifyW, Ctx.reply, hm]
+  · intro h
+    simp [processModeUser, hu, umodeChar, h, Ctx.modifyW, Ctx.reply, hm]
+
+/-- MODE aimed at a nick that is not the sender's own: refused with one line. -/
+theorem processMode_foreign (cfg : Cfg) (c : Nat) (t : Str) (modes : List (Str × List Str)) (x : Ctx)
+    (nick : Str) (hn : (x.conn c).nick = some nick) (hc : validateChannel t = false) (hne : t ≠ nick) :
+    processMode cfg c t modes x =
+      x.reply cfg (if Map.contains t x.w.users then ErrUsersDontMatch502 (x.conn c).clientName
+                   else ErrNoSuchNick401 (x.conn c).clientName t) := by
+  unfold processMode
+  have : (nick == t) = false := by simp [Ne.symm hne]
+  simp only [hn, hc, this, Bool.false_eq_true, ↓reduceIte]
+  split <;> rfl
+
+/-! ## 5. KILL / DIE: the quit signal -/
+section kill
+variable (k cm : Str)
+
+theorem User.killed_eta (v : User) (h : v.killed = true) : { v with killed := true } = v := by
+  cases v; simp_all
+
+/-- the connection update of a fired signal -/
+def markKilled (k cm : Str) (cn : Conn) : Conn := { cn with killedBy := some (k, cm) }
+
+theorem markKilled_idem (cn : Conn) : markKilled k cm (markKilled k cm cn) = markKilled k cm cn := rfl
+
+theorem conn?_id {w : World} {i : Nat} {cn : Conn} (h : w.conn? i = some cn) : cn.id = i := by
+  unfold World.conn? at h
+  have := List.find?_some h
+  simpa using this
+
+theorem fireKill_users (n : Str) (w : World) (m : Str) :
+    Map.lookup m (fireKill k cm n w).users =
+      if m = n then (Map.lookup m w.users).map (fun v => { v with killed := true })
+      else Map.lookup m w.users := by
+  unfold fireKill
+  cases hu : Map.lookup n w.users with
+  | none =>
+    simp only
+    split
+    · rename_i h; subst h; simp [hu]
+    · rfl
+  | some v =>
+    simp only
+    by_cases hk : v.killed = true
+    · simp only [hk, ↓reduceIte]
+      split
+      · rename_i h; subst h; simp [hu, User.killed_eta v hk]
+      · rfl
+    · simp only [hk, Bool.false_eq_true, ↓reduceIte]
+      have : ∀ w' : World, w'.users = Map.insert n { v with killed := true } w.users →
+          Map.lookup m w'.users = if m = n then (Map.lookup m w.users).map (fun v => { v with killed := true })
+            else Map.lookup m w.users := by
+        intro w' hw'
+        rw [hw', Map.lookup_insert]
+        by_cases hmn : m = n
+        · subst hmn; simp [hu]
+        · simp [hmn, Ne.symm hmn]
+      split
+      · exact this _ (by simp)
+      · exact this _ rfl
+
+theorem fireKill_conn? (n : Str) (w : World) (i : Nat) :
+    (fireKill k cm n w).conn? i =
+      if (∃ v, Map.lookup n w.users = some v ∧ v.killed = false ∧ v.owner = i)
+      then (w.conn? i).map (markKilled k cm) else w.conn? i := by
+  unfold fireKill
+  cases hu : Map.lookup n w.users with
+  | none => simp
+  | some v =>
+    simp only
+    by_cases hk : v.killed = true
+    · simp [hk]
+    · simp only [hk, Bool.false_eq_true, ↓reduceIte]
+      have hk' : v.killed = false := by simpa using hk
+      have hc : ∀ j, World.conn? { w with users := Map.insert n { v with killed := true } w.users } j
+          = w.conn? j := fun _ => rfl
+      rw [hc]
+      cases ho : w.conn? v.owner with
+      | none =>
+        simp only [hc]
+        split
+        · rename_i h; obtain ⟨v', e, _, h3⟩ := h; cases e; subst h3; simp [ho]
+        · rfl
+      | some cn =>
+        simp only
+        rw [conn?_setConn, hc]
+        have hid := conn?_id ho
+        by_cases hi : i = v.owner
+        · subst hi
+          simp [hid, ho, markKilled, hk']
+        · have hi' : ¬ v.owner = i := fun e => hi e.symm
+          simp [hid, hi, hi']
+
+/-- everything else is untouched -/
+theorem fireKill_frame (n : Str) (w : World) :
+    (fireKill k cm n w).channels = w.channels ∧ (fireKill k cm n w).wallops = w.wallops ∧
+    (fireKill k cm n w).srvQuit = w.srvQuit ∧ (fireKill k cm n w).panicked = w.panicked ∧
+    (fireKill k cm n w).operatorsCount = w.operatorsCount ∧
+    (fireKill k cm n w).invisibleCount = w.invisibleCount ∧
+    (fireKill k cm n w).histories = w.histories ∧
+    (fireKill k cm n w).connsCount = w.connsCount := by
+  unfold fireKill
+  split
+  · simp
+  · split
+    · simp
+    · simp only; split <;> simp
+
+theorem fireKill_modesKept (n : Str) (w : World) : ModesKept w (fireKill k cm n w) := by
+  intro m u' h
+  rw [fireKill_users] at h
+  split at h
+  · cases hl : Map.lookup m w.users with
+    | none => simp [hl] at h
+    | some u => simp [hl] at h; exact ⟨u, rfl, by rw [← h]⟩
+  · exact ⟨u', h, rfl⟩
+end kill
+
+section killAll
+variable (k cm : Str)
+
+/-- the loop of DIE -/
+def killAll (k cm : Str) (ns : List Str) (w : World) : World :=
+  ns.foldl (fun w n => fireKill k cm n w) w
+
+/-- some listed nick is a not-yet-signalled user owned by connection `i` -/
+def Hit (w : World) (ns : List Str) (i : Nat) : Prop :=
+  ∃ n ∈ ns, ∃ v, Map.lookup n w.users = some v ∧ v.killed = false ∧ v.owner = i
+
+theorem killAll_users (ns : List Str) (w : World) (m : Str) :
+    Map.lookup m (killAll k cm ns w).users =
+      if m ∈ ns then (Map.lookup m w.users).map (fun v => { v with killed := true })
+      else Map.lookup m w.users := by
+  induction ns generalizing w with
+  | nil => simp [killAll]
+  | cons n ns ih =>
+    have : killAll k cm (n :: ns) w = killAll k cm ns (fireKill k cm n w) := rfl
+    rw [this, ih, fireKill_users]
+    by_cases h1 : m = n
+    · subst h1
+      by_cases h2 : m ∈ ns
+      · simp only [h2, ↓reduceIte, List.mem_cons, true_or]
+        cases Map.lookup m w.users <;> simp
+      · simp [h2]
+    · simp [h1]
+
+theorem killAll_conn? (ns : List Str) (w : World) (i : Nat) :
+    (Hit w ns i → (killAll k cm ns w).conn? i = (w.conn? i).map (markKilled k cm)) ∧
+    (¬ Hit w ns i → (killAll k cm ns w).conn? i = w.conn? i) := by
+  induction ns generalizing w with
+  | nil =>
+    refine ⟨?_, fun _ => rfl⟩
+    rintro ⟨n, hn, _⟩; cases hn
+  | cons n ns ih =>
+    have e : killAll k cm (n :: ns) w = killAll k cm ns (fireKill k cm n w) := rfl
+    obtain ⟨ih1, ih2⟩ := ih (fireKill k cm n w)
+    have hf := fireKill_conn? k cm n w i
+    -- relate the three conditions
+    have hiff : Hit w (n :: ns) i ↔
+        ((∃ v, Map.lookup n w.users = some v ∧ v.killed = false ∧ v.owner = i) ∨
+         Hit (fireKill k cm n w) ns i) := by
+      constructor
+      · rintro ⟨m, hm, v, hv, hk, ho⟩
+        by_cases hmn : m = n
+        · subst hmn; exact Or.inl ⟨v, hv, hk, ho⟩
+        · right
+          have hm' : m ∈ ns := by simpa [hmn] using hm
+          exact ⟨m, hm', v, by rw [fireKill_users]; simp [hmn, hv], hk, ho⟩
+      · rintro (⟨v, hv, hk, ho⟩ | ⟨m, hm, v, hv, hk, ho⟩)
+        · exact ⟨n, by simp, v, hv, hk, ho⟩
+        · rw [fireKill_users] at hv
+          by_cases hmn : m = n
+          · subst hmn
+            simp only [↓reduceIte] at hv
+            cases hl : Map.lookup m w.users with
+            | none => simp [hl] at hv
+            | some v0 =>
+              simp [hl] at hv
+              rw [← hv] at hk
+              simp at hk
+          · simp only [hmn, ↓reduceIte] at hv
+            exact ⟨m, by simp [hm], v, hv, hk, ho⟩
+    rw [e]
+    by_cases h1 : (∃ v, Map.lookup n w.users = some v ∧ v.killed = false ∧ v.owner = i)
+    · have h3 : Hit w (n :: ns) i := hiff.mpr (Or.inl h1)
+      simp only [h1, ↓reduceIte] at hf
+      refine ⟨fun _ => ?_, fun h => absurd h3 h⟩
+      by_cases h2 : Hit (fireKill k cm n w) ns i
+      · rw [ih1 h2, hf]
+        cases w.conn? i <;> simp [markKilled]
+      · rw [ih2 h2, hf]
+    · simp only [h1, ↓reduceIte] at hf
+      by_cases h2 : Hit (fireKill k cm n w) ns i
+      · have h3 : Hit w (n :: ns) i := hiff.mpr (Or.inr h2)
+        refine ⟨fun _ => ?_, fun h => absurd h3 h⟩
+        rw [ih1 h2, hf]
+      · have h3 : ¬ Hit w (n :: ns) i := fun h => (hiff.mp h).elim h1 h2
+        refine ⟨fun h => absurd h h3, fun _ => ?_⟩
+        rw [ih2 h2, hf]
+
+theorem killAll_frame (ns : List Str) (w : World) :
+    (killAll k cm ns w).channels = w.channels ∧ (killAll k cm ns w).wallops = w.wallops ∧
+    (killAll k cm ns w).srvQuit = w.srvQuit ∧ (killAll k cm ns w).panicked = w.panicked ∧
+    (killAll k cm ns w).operatorsCount = w.operatorsCount ∧
+    (killAll k cm ns w).invisibleCount = w.invisibleCount ∧
+    (killAll k cm ns w).histories = w.histories ∧
+    (killAll k cm ns w).connsCount = w.connsCount := by
+  induction ns generalizing w with
+  | nil => simp [killAll]
+  | cons n ns ih =>
+    have e : killAll k cm (n :: ns) w = killAll k cm ns (fireKill k cm n w) := rfl
+    obtain ⟨a1, a2, a3, a4, a5, a6, a7, a8⟩ := ih (fireKill k cm n w)
+    obtain ⟨b1, b2, b3, b4, b5, b6, b7, b8⟩ := fireKill_frame k cm n w
+    rw [e]
+    exact ⟨a1.trans b1, a2.trans b2, a3.trans b3, a4.trans b4, a5.trans b5, a6.trans b6,
+      a7.trans b7, a8.trans b8⟩
+
+theorem killAll_modesKept (ns : List Str) (w : World) : ModesKept w (killAll k cm ns w) := by
+  induction ns generalizing w with
+  | nil => exact ModesKept.refl w
+  | cons n ns ih => exact (fireKill_modesKept k cm n w).trans (ih _)
+end killAll
+
+/-! ## sendAll -/
+
+theorem send_queued (x : Ctx) (n line : Str) :
+    (x.send n line).queued =
+      x.queued ++ ((Map.lookup n x.w.users).map (fun u => (u.owner, line))).toList := by
+  unfold Ctx.send
+  cases Map.lookup n x.w.users <;> simp
+
+theorem sendAll_users (ns : List Str) (line : Str) (x : Ctx) :
+    (x.sendAll ns line).w.users = x.w.users := by
+  unfold Ctx.sendAll
+  induction ns generalizing x with
+  | nil => rfl
+  | cons n ns ih => simp only [List.foldl_cons]; rw [ih]; simp
+
+theorem sendAll_direct (ns : List Str) (line : Str) (x : Ctx) :
+    (x.sendAll ns line).direct = x.direct := by
+  unfold Ctx.sendAll
+  induction ns generalizing x with
+  | nil => rfl
+  | cons n ns ih => simp only [List.foldl_cons]; rw [ih]; simp
+
+/-- `sendAll` queues the line once per listed nick that is a user, to the connection owning it,
+    in list order. -/
+theorem sendAll_queued (ns : List Str) (line : Str) (x : Ctx) :
+    (x.sendAll ns line).queued =
+      x.queued ++ ns.filterMap (fun n => (Map.lookup n x.w.users).map (fun u => (u.owner, line))) := by
+  unfold Ctx.sendAll
+  induction ns generalizing x with
+  | nil => simp
+  | cons n ns ih =>
+    simp only [List.foldl_cons]
+    rw [ih, send_queued]
+    simp only [Ctx.send_users, List.filterMap_cons]
+    cases Map.lookup n x.w.users <;> simp
+
+theorem sendAll_w (ns : List Str) (line : Str) (x : Ctx)
+    (h : ∀ n ∈ ns, ∃ u, Map.lookup n x.w.users = some u) :
+    (x.sendAll ns line).w = x.w := by
+  unfold Ctx.sendAll
+  induction ns generalizing x with
+  | nil => rfl
+  | cons n ns ih =>
+    simp only [List.foldl_cons]
+    obtain ⟨u, hu⟩ := h n (by simp)
+    have e : (x.send n line).w = x.w := by rw [Ctx.send_w_of_lookup x n line hu]
+    rw [ih, e]
+    intro m hm
+    rw [e]
+    exact h m (by simp [hm])
+
+/-! ## teardown removes the user -/
+
+theorem removeUserFromChannel_lookup_none (w : World) (ch n : Str)
+    (h : Map.lookup n w.users = none) : Map.lookup n (w.removeUserFromChannel ch n).users = none := by
+  unfold World.removeUserFromChannel
+  simp only [Map.lookup_modify, ↓reduceIte]
+  have : ∀ w' : World, w'.users = w.users → Option.map (fun u : User =>
+      { u with channels := KSet.erase ch u.channels }) (Map.lookup n w'.users) = none := by
+    intro w' e; rw [e, h]; rfl
+  apply this
+  split
+  · split
+    · rfl
+    · split <;> rfl
+  · rfl
+
+theorem removeUser_lookup_self (w : World) (n : Str) : Map.lookup n (w.removeUser n).users = none := by
+  unfold World.removeUser
+  cases hu : Map.lookup n w.users with
+  | none => exact hu
+  | some user =>
+    simp only
+    have pushH : ∀ (w' : World) e, (w'.pushHistory n e).users = w'.users := fun _ _ => rfl
+    rw [pushH]
+    have fold : ∀ (chs : List Str) (w' : World), Map.lookup n w'.users = none →
+        Map.lookup n (chs.foldl (fun w chn => w.removeUserFromChannel chn n) w').users = none := by
+      intro chs
+      induction chs with
+      | nil => intro w' h; exact h
+      | cons ch chs ih =>
+        intro w' h
+        exact ih _ (removeUserFromChannel_lookup_none w' ch n h)
+    apply fold
+    have : ∀ w' : World, w'.users = Map.erase n w.users → Map.lookup n w'.users = none := by
+      intro w' e; rw [e]; simp
+    apply this
+    split <;> split <;> (try split) <;> (try split) <;> rfl
+
+/-! ## generic fold lemmas -/
+
+theorem foldl_w_queued {β : Type} (f : Ctx → β → Ctx)
+    (h : ∀ x b, (f x b).w = x.w ∧ (f x b).queued = x.queued) (l : List β) (x : Ctx) :
+    (l.foldl f x).w = x.w ∧ (l.foldl f x).queued = x.queued := by
+  induction l generalizing x with
+  | nil => exact ⟨rfl, rfl⟩
+  | cons b l ih =>
+    obtain ⟨h1, h2⟩ := ih (f x b)
+    obtain ⟨h3, h4⟩ := h x b
+    exact ⟨h1.trans h3, h2.trans h4⟩
+
+theorem filterMap_congr' {α β : Type} (f g : α → Option β) (l : List α)
+    (h : ∀ a ∈ l, f a = g a) : l.filterMap f = l.filterMap g := by
+  induction l with
+  | nil => rfl
+  | cons a l ih =>
+    simp only [List.filterMap_cons]
+    rw [h a (by simp), ih (fun b hb => h b (by simp [hb]))]
+
+/-! ## 4. per-handler frame lemmas: `users` unchanged -/
+
+theorem foldl_users {β : Type} (f : Ctx → β → Ctx) (h : ∀ x b, (f x b).w.users = x.w.users)
+    (l : List β) (x : Ctx) : (l.foldl f x).w.users = x.w.users := by
+  induction l generalizing x with
+  | nil => rfl
+  | cons b l ih => exact (ih (f x b)).trans (h x b)
+
+section usersEq
+variable (cfg : Cfg) (c : Nat) (x : Ctx)
+
+@[simp] theorem unsupported_users (client : Str) (s : String) :
+    (unsupported cfg client s x).w.users = x.w.users := rfl
+
+@[simp] theorem sendIsupport_users (client : Str) : (sendIsupport cfg client x).w.users = x.w.users := by
+  unfold sendIsupport; apply foldl_users; intro y b; rfl
+
+@[simp] theorem processLusers_users (client : Str) : (processLusers cfg client x).w.users = x.w.users := by
+  unfold processLusers; simp only [Ctx.reply_w]; split <;> rfl
+
+@[simp] theorem processMotd_users (client : Str) (t : Option Str) :
+    (processMotd cfg client t x).w.users = x.w.users := by
+  unfold processMotd; split <;> rfl
+
+@[simp] theorem processAuthenticate_users : (processAuthenticate cfg c x).w.users = x.w.users := rfl
+@[simp] theorem processPing_users (t : Str) : (processPing cfg c t x).w.users = x.w.users := rfl
+@[simp] theorem processPong_users : (processPong cfg c x).w.users = x.w.users := rfl
+@[simp] theorem processQuit_users : (processQuit cfg c x).w.users = x.w.users := rfl
+@[simp] theorem processInfo_users : (processInfo cfg c x).w.users = x.w.users := rfl
+
+@[simp] theorem processVersion_users (t : Option Str) : (processVersion cfg c t x).w.users = x.w.users := by
+  unfold processVersion; split <;> simp
+
+@[simp] theorem processAdmin_users (t : Option Str) : (processAdmin cfg c t x).w.users = x.w.users := by
+  unfold processAdmin; split
+  · rfl
+  · simp only; split <;> split <;> rfl
+
+@[simp] theorem processTime_users (t : Option Str) : (processTime cfg c t x).w.users = x.w.users := by
+  unfold processTime; split <;> rfl
+
+@[simp] theorem processLinks_users (r m : Option Str) : (processLinks cfg c r m x).w.users = x.w.users := by
+  unfold processLinks; split <;> rfl
+
+theorem helpLines_users (client subject : Str) (i : Nat) (ls : List Str) (total : Nat) :
+    (helpLines cfg client subject i ls total x).w.users = x.w.users := by
+  induction ls generalizing i x with
+  | nil => rfl
+  | cons l ls ih =>
+    unfold helpLines
+    simp only
+    rw [ih]
+    split
+    · rfl
+    · split <;> rfl
+
+@[simp] theorem processHelp_users (s : Option Str) : (processHelp cfg c s x).w.users = x.w.users := by
+  unfold processHelp
+  simp only
+  split
+  · exact helpLines_users ..
+  · rfl
+
+@[simp] theorem processStats_users (q : Char) (s : Option Str) :
+    (processStats cfg c q s x).w.users = x.w.users := by
+  unfold processStats
+  simp only
+  split
+  · rfl
+  · split
+    · rfl
+    · split
+      · rfl
+      · split
+        · simp only [Ctx.reply_w]
+          split
+          · rfl
+          · split
+            · apply foldl_users; intro y b; split <;> rfl
+            · rfl
+        · rfl
+
+@[simp] theorem processWhowas_users (n : Str) (cnt : Option Nat) (s : Option Str) :
+    (processWhowas cfg c n cnt s x).w.users = x.w.users := by
+  unfold processWhowas
+  simp only
+  split
+  · rfl
+  · simp only [Ctx.reply_w]
+    split
+    · apply foldl_users; intro y b; rfl
+    · rfl
+
+@[simp] theorem processUserhost_users (ns : List Str) : (processUserhost cfg c ns x).w.users = x.w.users := by
+  unfold processUserhost; simp only; apply foldl_users; intro y b; rfl
+
+@[simp] theorem processIson_users (ns : List Str) : (processIson cfg c ns x).w.users = x.w.users := by
+  unfold processIson; simp only; apply foldl_users; intro y b; rfl
+
+@[simp] theorem processWallops_users (msg : Message) : (processWallops cfg c msg x).w.users = x.w.users := by
+  unfold processWallops
+  simp only
+  split
+  · rfl
+  · split
+    · rfl
+    · split
+      · exact sendAll_users ..
+      · rfl
+
+end usersEq
+
+section usersEq2
+variable (cfg : Cfg) (c : Nat) (x : Ctx)
+
+theorem ite_w_users (p : Prop) [Decidable p] (a b : Ctx) :
+    (if p then a else b).w.users = if p then a.w.users else b.w.users := by
+  split <;> rfl
+
+theorem namesLines_users (cn : Conn) (chname : Str) (ch : Channel) (us : Map User) :
+    (namesLines cfg cn chname ch us x).w.users = x.w.users := by
+  unfold namesLines
+  simp only
+  refine (foldl_users _ ?_ _ _).trans ?_
+  · intro y b; rfl
+  · simp only [ite_w_users, Ctx.panic_w, World.panic_users, ite_self]
+
+@[simp] theorem sendNamesFromChannel_users (chname : Str) (ch : Channel) (e : Bool) :
+    (sendNamesFromChannel cfg c chname ch e x).w.users = x.w.users := by
+  unfold sendNamesFromChannel
+  simp only [ite_w_users, Ctx.reply_w, namesLines_users, ite_self]
+
+@[simp] theorem processNames_users (chs : List Str) : (processNames cfg c chs x).w.users = x.w.users := by
+  unfold processNames
+  simp only
+  split
+  · apply foldl_users; intro y b; split
+    · simp
+    · rfl
+  · simp only [Ctx.reply_w]
+    apply foldl_users; intro y b; simp
+
+@[simp] theorem processList_users (chs : List Str) (s : Option Str) :
+    (processList cfg c chs s x).w.users = x.w.users := by
+  unfold processList
+  simp only
+  split
+  · rfl
+  · simp only [Ctx.reply_w]
+    split
+    · refine (foldl_users _ ?_ _ _).trans rfl
+      intro y b; split
+      · split <;> rfl
+      · rfl
+    · refine (foldl_users _ ?_ _ _).trans rfl
+      intro y b; split <;> rfl
+
+@[simp] theorem processTopic_users (ch : Str) (t : Option Str) (msg : Message) :
+    (processTopic cfg c ch t msg x).w.users = x.w.users := by
+  unfold processTopic
+  simp only
+  split
+  · rfl
+  · split
+    · split
+      · split
+        · split
+          · rw [sendAll_users]; rfl
+          · rfl
+        · rfl
+      · rfl
+    · split
+      · split
+        · split <;> rfl
+        · rfl
+      · rfl
+
+end usersEq2
+
+theorem foldl_pair_users {β γ : Type} (f : Ctx × γ → β → Ctx × γ)
+    (h : ∀ p b, (f p b).1.w.users = p.1.w.users) (l : List β) (p : Ctx × γ) :
+    (l.foldl f p).1.w.users = p.1.w.users := by
+  induction l generalizing p with
+  | nil => rfl
+  | cons b l ih => exact (ih (f p b)).trans (h p b)
+
+section usersEq3
+variable (cfg : Cfg) (c : Nat) (x : Ctx)
+
+theorem privmsgTarget_users (nick : Str) (notice : Bool) (text target : Str) :
+    (privmsgTarget cfg c nick notice text target x).1.w.users = x.w.users := by
+  unfold privmsgTarget
+  simp only
+  split
+  · split
+    · split
+      · simp only
+        apply foldl_users; intro y b; simp
+      · simp only [ite_w_users, Ctx.reply_w, ite_self]
+    · simp only [ite_w_users, Ctx.reply_w, ite_self]
+  · split
+    · simp only
+      repeat' split
+      all_goals simp
+    · simp only [ite_w_users, Ctx.reply_w, ite_self]
+
+@[simp] theorem processPrivmsgNotice_users (ts : List Str) (t : Str) (notice : Bool) :
+    (processPrivmsgNotice cfg c ts t notice x).w.users = x.w.users := by
+  unfold processPrivmsgNotice
+  split
+  · rfl
+  · rename_i nick _
+    simp only
+    generalize hr : List.foldl _ (x, false) (dedup ts) = r
+    have hu : r.1.w.users = x.w.users := by
+      rw [← hr]
+      refine (foldl_pair_users _ ?_ _ _).trans rfl
+      rintro ⟨y, d⟩ b
+      exact privmsgTarget_users ..
+    obtain ⟨y, d⟩ := r
+    simp only at hu ⊢
+    split <;> simp [hu]
+end usersEq3
+
+section usersEq4
+variable (cfg : Cfg) (c : Nat) (x : Ctx)
+
+@[simp] theorem sendWhoInfo_users (cn : Conn) (ch : Option (Str × ChanUserModes)) (un : Str) (u cu : User) :
+    (sendWhoInfo cfg cn ch un u cu x).w.users = x.w.users := by
+  unfold sendWhoInfo
+  simp only [ite_w_users, Ctx.reply_w, ite_self]
+
+@[simp] theorem processWho_users (mask : Str) : (processWho cfg c mask x).w.users = x.w.users := by
+  unfold processWho
+  simp only
+  split
+  · rfl
+  · split
+    · rfl
+    · simp only [Ctx.reply_w]
+      split
+      · refine (foldl_users _ ?_ _ _).trans rfl
+        intro y b
+        simp only [ite_w_users, sendWhoInfo_users, ite_self]
+      · split
+        · split
+          · split
+            · refine (foldl_users _ ?_ _ _).trans rfl
+              intro y b
+              split <;> simp
+            · rfl
+          · rfl
+        · split
+          · split <;> simp
+          · rfl
+
+theorem foldl_reply_users {β : Type} (g : β → Str) (l : List β) :
+    (l.foldl (fun y b => y.reply cfg (g b)) x).w.users = x.w.users := by
+  apply foldl_users; intro y b; rfl
+
+theorem whoisOne_users (cn : Conn) (user : User) (nick : Str) :
+    (whoisOne cfg cn user nick x).w.users = x.w.users := by
+  unfold whoisOne
+  split
+  · rfl
+  · simp only [ite_w_users, Ctx.reply_w, foldl_reply_users, Ctx.panic_w, World.panic_users, ite_self]
+
+@[simp] theorem processWhois_users (t : Option Str) (ns : List Str) :
+    (processWhois cfg c t ns x).w.users = x.w.users := by
+  unfold processWhois
+  simp only
+  split
+  · rfl
+  · split
+    · rfl
+    · split
+      · rfl
+      · simp only [Ctx.reply_w]
+        refine (foldl_users _ ?_ _ _).trans rfl
+        intro y b
+        exact whoisOne_users ..
+end usersEq4
+
 end Irc.C11
